@@ -10,6 +10,8 @@ From XcpModel Require Import Base Backup Paths Walker.
 From XcpProofs Require Import WalkerProofs.
 From XcpModel Require Import Extracted.
 From XcpProofs Require Import ExtractedOk.
+From XcpProofs Require Import PinnedSource.
+From XcpPins Require Import Pin_parfile_copy_worker Pin_parblock_dispatch_worker.
 
 (* cp's mapping rule: every entry maps to target_base ++ its relative path;
    distinct entries map to distinct targets; a child maps below its parent *)
@@ -73,6 +75,13 @@ Theorem C02_src_walker_dispatch :
   map fst x_walker_dispatch = [0; 1; 2; 3; 4; 5; 6; 7]%N.
 Proof. exact x_walker_dispatch_ok. Qed.
 
+(* ---- the glue functions this property's hand-written model mirrors are, token for token, the ones it was
+   validated against (an edit re-opens the obligation; harness/repin.py re-pins after re-validation) ---- *)
+Theorem C02_src_pin_parfile_copy_worker : pin_unchanged name_parfile_copy_worker.
+Proof. exact pin_parfile_copy_worker. Qed.
+Theorem C02_src_pin_parblock_dispatch_worker : pin_unchanged name_parblock_dispatch_worker.
+Proof. exact pin_parblock_dispatch_worker. Qed.
+
 Print Assumptions C02_target_injective.
 Print Assumptions C02_child_below_parent.
 Print Assumptions C02_target_base_rule.
@@ -80,3 +89,5 @@ Print Assumptions C02_entries_distinct.
 Print Assumptions C02_mirror_on_success.
 Print Assumptions C02_sizes_sum.
 Print Assumptions C02_src_walker_dispatch.
+Print Assumptions C02_src_pin_parfile_copy_worker.
+Print Assumptions C02_src_pin_parblock_dispatch_worker.
